@@ -108,7 +108,7 @@ func primitiveBlock(objs []obj, variant int) []byte {
 				lons = append(lons, zz(lon-plon))
 				pid, plat, plon = o.id, lat, lon
 				for _, t := range o.tags {
-					kv = append(kv, st.id(fmt.Sprintf("k%d", t[0])), st.id(fmt.Sprintf("v%d", t[1])))
+					kv = append(kv, st.id(fmt.Sprintf("k%d", t[0])), st.id(valS(t[1])))
 					anyTags = true
 				}
 				kv = append(kv, 0)
@@ -128,7 +128,7 @@ func primitiveBlock(objs []obj, variant int) []byte {
 				var ks, vs, refs []uint64
 				for _, t := range o.tags {
 					ks = append(ks, st.id(fmt.Sprintf("k%d", t[0])))
-					vs = append(vs, st.id(fmt.Sprintf("v%d", t[1])))
+					vs = append(vs, st.id(valS(t[1])))
 				}
 				var prev int64
 				for _, r := range o.refs {
@@ -147,7 +147,7 @@ func primitiveBlock(objs []obj, variant int) []byte {
 				var ks, vs, roles, mem, typ []uint64
 				for _, t := range o.tags {
 					ks = append(ks, st.id(fmt.Sprintf("k%d", t[0])))
-					vs = append(vs, st.id(fmt.Sprintf("v%d", t[1])))
+					vs = append(vs, st.id(valS(t[1])))
 				}
 				var prev int64
 				for _, m := range o.refs {
